@@ -43,7 +43,7 @@ def run(tier, seed):
                         [rng.randint(0x100, 0xFFFF) for _ in range(4 if tier == "quick" else 64)]
                 if vals is None:
                     # branches: every distance -131..131 around pc+2 from several origins
-                    for pc in origins if tier == "thorough" else [0x1000, 0xFFF0, 0]:
+                    for pc in (origins + [0xFFFD, 0xFFFE]) if tier == "thorough" else [0x1000, 0xFFF0, 0, 0xFFFE]:
                         for dist in range(-131, 132, 1 if tier == "thorough" else 1):
                             if tier == "quick" and abs(dist) not in (0, 1, 2, 126, 127, 128, 129, 130, 131) and dist % 17:
                                 continue
